@@ -163,6 +163,12 @@ def asSetsReq (j : Json) : R (Option SetsReq) := do
     pure (some (.kFoldRdm sel kr))
   | _ => pure none
 
+def asPart (j : Json) : R Rsa.Folds.Part := do
+  let r ← fld j "rows" >>= asList asNat
+  let c ← fld j "conds" >>= asList asNat
+  let p ← fld j "pidx" >>= asList asNat
+  pure { rows := r, conds := c, pidx := p }
+
 def asFolds (d : Data Float) (j : Json) : R (List Rsa.Folds.Fold × Bool) := do
   let gen ← fld j "gen" >>= asStr
   let o := objOf d (fullView d)
@@ -186,6 +192,15 @@ def asFolds (d : Data Float) (j : Json) : R (List Rsa.Folds.Fold × Bool) := do
   | "loo_pattern" =>
     let sel ← fld j "psel" >>= asList asNat
     pure ((Rsa.Folds.looPatternV sel).map (Rsa.Folds.realize o), true)
+  | "hand" =>
+    -- round 5: hand-built splits: every set given by its RDM positions, condition positions and
+    -- advertised pattern indices (group codes)
+    let fs ← fld j "folds" >>= asList (fun fj => do
+      let tr ← fld fj "train" >>= asPart
+      let te ← fld fj "test" >>= asPart
+      let ce ← asOpt asPart (fldD fj "ceil" Json.null)
+      pure ({ train := tr, test := te, ceil := ce } : Rsa.Folds.Fold))
+    pure (fs, fs.all (fun f => f.ceil.isSome))
   | g => throw s!"unknown generator {g}"
 
 /-! ### the op -/
@@ -236,18 +251,21 @@ def runOp (j : Json) : R Json := do
            ("meta", ofMeta (resultMeta .crossval
              { sz with N := 1, nFolds := r.evals.length, nOkFolds := r.nc.length,
                        hasCeil := hasCeil, calcNc := calcNc }))]
+    -- round 5: is the generator's / the hand-built `ceil_set` handed over, or left out (`None`)?
+    let fwd ← asBool (fldD j "ceil_given" (Json.bool true))
     match ← asSetsReq fj with
     | some req =>
       -- generators that may reject the request: the explicit outcome
-      match crossvalOn m fit predict ncf d nModels req calcNc with
+      match crossvalOnCeil m fit predict ncf d nModels req fwd calcNc with
       | .error e => pure (obj [("exc", Json.str e.name)])
       | .ok r =>
         let hasCeil := match req with
           | .kFoldPattern _ _ => false
-          | _ => true
+          | _ => fwd
         pure (answer r hasCeil)
     | none =>
-      let (folds, hasCeil) ← asFolds d fj
+      let (folds, hasCeil0) ← asFolds d fj
+      let hasCeil := hasCeil0 && fwd
       pure (answer (crossval m fit predict ncf d nModels folds hasCeil calcNc) hasCeil)
   | "bcv" =>
     let kr0 ← asOpt asNat (fldD j "kr" Json.null)
